@@ -25,27 +25,30 @@ def facts(read, die, define):
     out.append("Definition c18_label_prefix : list Z := [%s]." % "; ".join(str(ord(c)) for c in m.group(2)[:-2]))
     if not re.search(r'snprintf\(buffer \+ s, buffer_size - s, ":%\.\*f", \(int\) self->precision,\s*branch_length\)', conv):
         die("branch length format in tsk_newick_converter_run")
-    # the estimate:  single_node_size = ( K + max_label_size + ceil(log10(root_time)) + precision )
-    #                buffer_size = E + single_node_size * num_nodes
+    # the estimate (repaired by fix 1e12f75):
+    #   max_branch = self.time(root) - self.tree_sequence.nodes_time.min()
+    #   max_label_size = len(str(self.tree_sequence.num_nodes))
+    #   single_node_size = K + max_label_size + len(f"{max_branch:.{precision}f}")
+    #   buffer_size = E + single_node_size * num_nodes
     m = re.search(r"def _as_newick_fast\(self.*?\n(.*?)\n    def ", trees, re.S)
     if not m:
         die("_as_newick_fast body")
     body = m.group(1)
-    m1 = re.search(r"root_time = max\((\d+), self\.time\(root\)\)", body)
-    m2 = re.search(r"max_label_size = math\.ceil\(math\.log10\(self\.tree_sequence\.num_nodes\)\)", body)
-    m3 = re.search(r"single_node_size = \(\s*(\d+) \+ max_label_size \+ math\.ceil\(math\.log10\(root_time\)\) \+ precision\s*\)", body)
+    m1 = re.search(r"max_branch = self\.time\(root\) - self\.tree_sequence\.nodes_time\.min\(\)", body)
+    m2 = re.search(r"max_label_size = len\(str\(self\.tree_sequence\.num_nodes\)\)", body)
+    m3 = re.search(r"single_node_size = (\d+) \+ max_label_size \+ len\(f\"\{max_branch:\.\{precision\}f\}\"\)", body)
     m4 = re.search(r"buffer_size = (\d+) \+ single_node_size \* self\.tree_sequence\.num_nodes", body)
     if not (m1 and m2 and m3 and m4):
-        # the formula changed shape (e.g. a repair): the model's [estimate] no longer mirrors it;
-        # export a marker so that the correspondence (which compares the observed buffer size
-        # with the model's formula only when this is true) does not claim a tie it cannot make.
-        out.append("Definition c18_estimate_shape_known : bool := false.")
-        out.append("Definition c18_estimate_root_time_floor : Z := 1.")
-        out.append("Definition c18_estimate_per_node : Z := 5.")
-        out.append("Definition c18_estimate_extra : Z := 1.")
-    else:
-        out.append("Definition c18_estimate_shape_known : bool := true.")
-        out.append("Definition c18_estimate_root_time_floor : Z := %s." % m1.group(1))
-        out.append("Definition c18_estimate_per_node : Z := %s." % m3.group(1))
-        out.append("Definition c18_estimate_extra : Z := %s." % m4.group(1))
+        die("Tree._as_newick_fast: the buffer-size formula is not the one the model mirrors "
+            "(C18.Model.estimate)")
+    out.append("Definition c18_estimate_per_node : Z := %s." % m3.group(1))
+    out.append("Definition c18_estimate_extra : Z := %s." % m4.group(1))
+    # the general writer is the iterative build_newick over a post-order; the legacy ms label
+    # dictionary is built from the leaves below the requested root
+    tf = read("python/tskit/text_formats.py")
+    if not re.search(r'for node in tree\.nodes\(root, order="postorder"\):', tf) or "def _build_newick(" in tf \
+            or not re.search(r"subtree = subtrees\.pop\(child\)", tf):
+        die("text_formats.build_newick is not the iterative post-order writer the model mirrors")
+    if not re.search(r'node_labels = \{u: f"\{u \+ 1\}" for u in self\.leaves\(root\)\}', trees):
+        die("Tree.as_newick: legacy ms label dictionary is not built from self.leaves(root)")
     return out
